@@ -30,12 +30,12 @@ open Pox.BufPool
 /- MAC addresses (48-bit numbers) and port numbers are plain `Nat`s (an `abbrev` would hide them from `omega`). -/
 
 structure Frame where
-  src : Nat
-  dst : Nat
-  etype : Nat
-  key : Nat
-  full : Bool
-  pay : Nat
+  src : Nat                 -- source MAC
+  dst : Nat                 -- destination MAC
+  etype : Nat               -- `ethernet.type`
+  key : Nat                 -- the other header fields `from_packet` reads (harness: UDP source port / ARP target address)
+  full : Bool               -- match is fully specified after the wire round trip (harness: IPv4/UDP)
+  pay : Nat                 -- payload bytes no match looks at
   deriving DecidableEq, Repr
 
 /-- what `ofp_match.from_packet` keeps of a frame -/
